@@ -56,6 +56,20 @@ def lattice(ctx):
                          'timeout': P.NOT_SET, 'paging': 5, 'pv': 4, 'prepared': prep, 'meta_keyspace': 11 if pbits[1] else None,
                          'bind_via_session': via, 'lattice': True}
                     cases.append(c)
+    # where the profile's / session's own consistency level comes from: chosen by the user or not, ordinary or DBaaS cluster,
+    # profile registered at connect() or added later
+    for mode in ('Legacy', 'Profiles'):
+        for kind in ('Simple', 'Bound', 'Batch'):
+            for scl in (0, 1):
+                for dbaas in (False, True):
+                    for pch in (False, True):
+                        for sch in (False, True):
+                            for later in (False, True):
+                                cases.append({'mode': mode, 'kind': kind, 'stmt': stmt_from_bits((scl, 0, 0, 0, 0, 0)), 'profile': dict(PROFILE, cl=4),
+                                              'session': dict(SESSION, cl=2), 'timeout': P.NOT_SET, 'paging': None, 'pv': 4,
+                                              'prepared': dict(UNSET_STMT), 'meta_keyspace': None, 'bind_via_session': False, 'lattice': True,
+                                              'dbaas': dbaas, 'profile_cl_chosen': pch, 'session_cl_chosen': sch,
+                                              'added_later': later and mode == 'Profiles'})
     return cases, pvs
 
 
@@ -79,7 +93,8 @@ def random_cases(ctx, n):
                     'timeout': rng.choice((P.NOT_SET, P.NOT_SET, None, 0.25, 7.0)), 'paging': rng.choice((None, 1, 12)),
                     'pv': rng.choice((1, 2, 3, 4, 5, 6, 65, 66)), 'prepared': rs(), 'meta_keyspace': rng.choice((None, 11)),
                     'bind_via_session': via, 'profile_ref': rng.choice(('default', 'name', 'object')),
-                    'config_mode_value': rng.choice((0, 2)), 'lattice': False})
+                    'config_mode_value': rng.choice((0, 2)), 'lattice': False, 'dbaas': rng.random() < 0.3,
+                    'profile_cl_chosen': rng.random() < 0.7, 'session_cl_chosen': rng.random() < 0.7, 'added_later': rng.random() < 0.3})
     return out
 
 
@@ -101,7 +116,10 @@ def effective_stmt(case):
 def oracle(ctx, case, res):
     """the statement of C46 on what the implementation produced"""
     mode, kind, pv = case['mode'], case['kind'], case['pv']
-    base = case['session'] if mode == 'Legacy' else case['profile']
+    base = dict(case['session'] if mode == 'Legacy' else case['profile'])
+    chosen = case.get('session_cl_chosen', True) if mode == 'Legacy' else case.get('profile_cl_chosen', True)
+    if not chosen:
+        base['cl'] = 6 if case.get('dbaas') else 10      # nobody chose a level: LOCAL_QUORUM on DBaaS clusters, else LOCAL_ONE
     st = effective_stmt(case)
     bad = []
     if isinstance(res, tuple):
@@ -169,7 +187,7 @@ def run(ctx):
     ctx.exhaustive = True
     ctx.rule = ('exhaustive: 2^6 set/unset combinations of statement options (consistency, serial consistency, retry policy, fetch size, keyspace, '
                 'idempotence) x timeout argument set/unset x {simple, bound, batch} x {legacy, profiles} x protocol versions %r; 2^4 x 2^4 '
-                'prepared-vs-bound inheritance lattice x both binding paths; plus random option values (None timeouts/fetch sizes, '
+                'prepared-vs-bound inheritance lattice x both binding paths; {ordinary, DBaaS cluster} x profile level chosen/not x session level chosen/not x profile added later; plus random option values (None timeouts/fetch sizes, '
                 'serial levels on profile/session, profile by name/object, uncommitted config mode); non-trivial = at least one statement '
                 'option set' % (pvs,))
     cases, meta = [], []
@@ -178,7 +196,8 @@ def run(ctx):
         st = effective_stmt(case)
         nset = sum(1 for k in ('cl', 'serial', 'retry') if st[k] is not None) + (st['fetch'] != 'unset')
         ctx.case([case['mode'], case['kind'], case['stmt'], case['prepared'], case['timeout'], case['pv'], case['paging'], case['bind_via_session'],
-                  case['profile'], case['session'], case['meta_keyspace']], nontrivial=nset > 0,
+                  case['profile'], case['session'], case['meta_keyspace'], case.get('dbaas'), case.get('profile_cl_chosen'),
+                  case.get('session_cl_chosen'), case.get('added_later')], nontrivial=nset > 0 or bool(case.get('dbaas')),
                  sample={'mode': case['mode'], 'kind': case['kind'], 'pv': case['pv'], 'statement': st, 'timeout_arg': case['timeout'],
                          'created': res if isinstance(res, tuple) else {k: v for k, v in res.items()}})
         ctx.count('mode', case['mode'])
@@ -186,6 +205,7 @@ def run(ctx):
         ctx.count('pv', case['pv'])
         ctx.count('statement_options_set', nset)
         ctx.count('source', 'lattice' if case['lattice'] else 'random')
+        ctx.count('cluster', 'dbaas' if case.get('dbaas') else 'ordinary')
         oracle(ctx, case, res)
         cases.append(P.g_case(case, res))
         meta.append((case, res))
